@@ -61,18 +61,21 @@ theorem noKI_mustText (c : Call) : NoKI (mustText c) := by
   | none => exact noKI_raise (by decide) s' hs'
   | obj => exact noKI_raise (by decide) s' hs'
   | raises e => exact noKI_raise ho s' hs'
+  | bytes => exact noKI_raise (by decide) s' hs'
 
 theorem noKI_pyStr (v : Val) : NoKI (pyStr v) := by
   cases v with
   | none => exact noKI_ret _
   | text t => exact noKI_ret _
   | hostile => exact noKI_mustText _
+  | bytes => exact noKI_ret _
 
 theorem noKI_pyRepr (v : Val) : NoKI (pyRepr v) := by
   cases v with
   | none => exact noKI_ret _
   | text t => exact noKI_ret _
   | hostile => exact noKI_mustText _
+  | bytes => exact noKI_ret _
 
 theorem noKI_reprAll (vs : List Val) : NoKI (reprAll vs) := by
   induction vs with
